@@ -40,7 +40,7 @@ structure Last where
   delay : Nat
 
 structure RateSt where
-  l : Limiter
+  hl : HLimiter
   cap : Nat
   solo : Option (List (String × Limiter))
   now : Nat
@@ -52,7 +52,7 @@ inductive St where
   | dead
   | rate (s : RateSt)
   | set (s : BucketSet) (now : Nat)
-  | ttl (m : TTL.Map Nat) (now : Nat)
+  | ttl (m : TTL.HMap Nat) (now : Nat)
   | conn (s : ConnLimit.Sys)
 
 def parseRate (s : String) : Option Rate :=
@@ -87,20 +87,20 @@ def soloPut (ls : List (String × Limiter)) (src : String) (l : Limiter) : List 
 def doReq (s : RateSt) (t : Nat) (src : String) (amount : Nat) (rates : List Rate) (choice : Option String)
     (suffix : String) : St × String :=
   let now := if t > s.now then t else s.now
-  let m1 := (s.l.sets.get src now).1
-  let ev := s.l.evictsAt now src
+  let ev := s.hl.base.evictsAt now src
+  -- the victim is the top of the modelled expiry heap; an `evict=` on the op line must name exactly that entry
+  let victim := s.hl.victimAt now src
   let flag :=
     if ev then
       match choice with
-      | some c => if m1.isMin c then "" else "illegal-evict "
-      | none => if m1.minCount > 1 then "ambiguous-evict " else ""
+      | some c => if c == victim then "" else "illegal-evict "
+      | none => ""
     else
       match choice with
       | some _ => "spurious-evict "
       | none => ""
-  let victim := m1.victimOr choice
-  let r := s.l.serve now src amount rates victim
-  let fresh := Limiter.new s.l.defaults s.cap
+  let r := s.hl.serve now src amount rates
+  let fresh := Limiter.new s.hl.base.defaults s.cap
   -- solo mode: the victim named on the op line starts afresh in its private limiter too
   let solo0 := match s.solo, choice with
     | some ls, some c => some (soloPut ls c fresh)
@@ -115,19 +115,19 @@ def doReq (s : RateSt) (t : Nat) (src : String) (amount : Nat) (rates : List Rat
     | _ => s.last
   if s.armed && s.solo.isNone && r.2 != .ok then
     -- the refusal is held back in the error handler; the limiter state has already changed
-    (.rate { s with l := r.1, now := now, armed := false,
+    (.rate { s with hl := r.1, now := now, armed := false,
                     parked := some (flag ++ respStr r.2, match r.2 with | .tooMany d => some ⟨now, src, amount, rates, d⟩ | _ => none) },
      "parked")
   else
-  (.rate { s with l := r.1, solo := solo1, now := now, last := last }, flag ++ respStr r.2 ++ suffix ++ soloStr)
+  (.rate { s with hl := r.1, solo := solo1, now := now, last := last }, flag ++ respStr r.2 ++ suffix ++ soloStr)
 
 /-- `n` sequential requests at one instant, counting the responses -/
-def preqLoop (l : Limiter) (now : Nat) (src : String) (amount : Nat) (rates : List Rate) :
-    Nat → Option String → Nat × Nat × Nat → Limiter × (Nat × Nat × Nat)
-  | 0, _, c => (l, c)
-  | k + 1, choice, (a, b, c) =>
-    let r := l.serve now src amount rates ((l.sets.get src now).1.victimOr choice)
-    preqLoop r.1 now src amount rates k none
+def preqLoop (hl : HLimiter) (now : Nat) (src : String) (amount : Nat) (rates : List Rate) :
+    Nat → Nat × Nat × Nat → HLimiter × (Nat × Nat × Nat)
+  | 0, c => (hl, c)
+  | k + 1, (a, b, c) =>
+    let r := hl.serve now src amount rates
+    preqLoop r.1 now src amount rates k
       (match r.2 with | .ok => (a + 1, b, c) | .tooMany _ => (a, b + 1, c) | .err => (a, b, c + 1))
 
 def ratesOf (f : List String) : Option (List Rate) :=
@@ -146,18 +146,18 @@ def stepRate (s : RateSt) (f : List String) : St × String :=
     | some t, some amount, some n, some (_ + 1), some rates, none, false =>
       let now := if t > s.now then t else s.now
       let choice := Driver.kv f "evict"
-      let m1 := (s.l.sets.get src now).1
+      let victim := s.hl.victimAt now src
       let flag :=
         if n = 0 then "" else
-        if s.l.evictsAt now src then
+        if s.hl.base.evictsAt now src then
           match choice with
-          | some c => if m1.isMin c then "" else "illegal-evict "
-          | none => if m1.minCount > 1 then "ambiguous-evict " else ""
+          | some c => if c == victim then "" else "illegal-evict "
+          | none => ""
         else match choice with
           | some _ => "spurious-evict "
           | none => ""
-      let r := preqLoop s.l now src amount rates n choice (0, 0, 0)
-      (.rate { s with l := r.1, now := now },
+      let r := preqLoop s.hl now src amount rates n (0, 0, 0)
+      (.rate { s with hl := r.1, now := now },
         flag ++ "200=" ++ toString r.2.1 ++ " 429=" ++ toString r.2.2.1 ++ " 500=" ++ toString r.2.2.2)
     | _, _, _, _, _, _, _ => (.rate s, "bad-op")
   | ["park-reject"] =>
@@ -201,7 +201,7 @@ def stepSet (s : BucketSet) (now : Nat) (f : List String) : St × String :=
 
 def joinC (l : List String) : String := ",".intercalate l
 
-def stepTTL (m : TTL.Map Nat) (now : Nat) (f : List String) : St × String :=
+def stepTTL (m : TTL.HMap Nat) (now : Nat) (f : List String) : St × String :=
   match f with
   | "at" :: t :: "set" :: k :: ttl :: _ =>
     match t.toNat? with
@@ -214,25 +214,25 @@ def stepTTL (m : TTL.Map Nat) (now : Nat) (f : List String) : St × String :=
       | some ttl =>
         let choice := Driver.kv f "evict"
         let flag :=
-          if m.evicts k then
+          if m.map.evicts k then
             match choice with
-            | some c => if m.isMin c then "" else "illegal-evict "
-            | none => if m.minCount > 1 then "ambiguous-evict " else ""
+            | some c => if c == m.victim then "" else "illegal-evict "
+            | none => ""
           else match choice with
             | some _ => "spurious-evict "
             | none => ""
-        let m1 := m.set k (Driver.kvNat f "v" 0) ttl now (m.victimOr choice)
+        let m1 := m.set k (Driver.kvNat f "v" 0) ttl now
         -- probes: `Get` of every listed key, in order (a `Get` deletes an expired entry)
         let probes := match Driver.kv f "probe" with
           | some p => (p.splitOn ",").filter (· ≠ "")
           | none => []
-        let (m2, gone) := probes.foldl (fun (acc : TTL.Map Nat × List String) p =>
+        let (m2, gone) := probes.foldl (fun (acc : TTL.HMap Nat × List String) p =>
           let g := acc.1.get p now
           (g.1, if g.2.isNone then acc.2 ++ [p] else acc.2)) (m1, [])
         let goneStr := match Driver.kv f "probe" with
           | some _ => " gone=" ++ joinC gone
           | none => ""
-        (.ttl m2 now, flag ++ "ok len=" ++ toString m1.entries.length ++ goneStr)
+        (.ttl m2 now, flag ++ "ok len=" ++ toString m1.map.entries.length ++ goneStr)
   | ["at", t, "get", k] =>
     match t.toNat? with
     | none => (.ttl m now, "bad-op")
@@ -240,7 +240,7 @@ def stepTTL (m : TTL.Map Nat) (now : Nat) (f : List String) : St × String :=
       let now := if t > now then t else now
       let g := m.get k now
       (.ttl g.1 now, match g.2 with | some v => "hit " ++ toString v | none => "miss")
-  | ["len"] => (.ttl m now, toString m.entries.length)
+  | ["len"] => (.ttl m now, toString m.map.entries.length)
   | _ => (.ttl m now, "bad-op")
 
 def connOut : ConnLimit.Out → String
@@ -272,14 +272,14 @@ def init (f : List String) : St × String :=
     match parseRates rates with
     | some (r :: rs) =>
       let cap := Driver.kvNat f "cap" 0
-      let l := Limiter.new (r :: rs) cap
-      (.rate { l := l, cap := cap, solo := if Driver.kvNat f "solo" 0 = 1 then some [] else none, now := 0, last := none }, "ok")
+      let l := HLimiter.new (r :: rs) cap
+      (.rate { hl := l, cap := cap, solo := if Driver.kvNat f "solo" 0 = 1 then some [] else none, now := 0, last := none }, "ok")
     | _ => (.dead, "err badrate")
   | ["cfg", "set", rates] =>
     match parseRates rates with
     | some rs => (.set (BucketSet.new rs 0) 0, "ok")
     | none => (.dead, "err badrate")
-  | "cfg" :: "ttlmap" :: _ => (.ttl (TTL.empty (Driver.kvNat f "cap" 0)) 0, "ok")
+  | "cfg" :: "ttlmap" :: _ => (.ttl (TTL.HMap.empty (Driver.kvNat f "cap" 0)) 0, "ok")
   | "cfg" :: "conn" :: _ =>
     match Driver.kv f "max" with
     | some v => match v.toInt? with
